@@ -7,7 +7,11 @@ def _models(tier, seed, fams, nq, nt, size_q="small", size_t="small"):
     n = nq if tier == "quick" else nt
     out = []
     for i in range(n):
-        out.append((fams[i % len(fams)], seed * 100 + i, size_q if tier == "quick" else size_t))
+        f = fams[i % len(fams)]
+        sz = size_q if tier == "quick" else size_t
+        if ":" in f:
+            f, sz = f.split(":")
+        out.append((f, seed * 100 + i, sz))
     return out
 
 
@@ -36,3 +40,65 @@ def replay(pid, path):
         print("VIOLATION property=%s replay=%s" % (v["res"]["bad"][0]["p"], path))
         return 1
     return 0 if v["verdict"] == "ok" else 2
+
+
+def _sys(pid, tier, seed, own, fams, nq, nt, cq, ct, emphasis=None, size_q="small", size_t="small", fixed=None):
+    c = syscamp.Campaign(pid, tier, seed, own_ids=own)
+    try:
+        c.build()
+        c.run(_models(tier, seed, fams, nq, nt, size_q, size_t), cq if tier == "quick" else ct, emphasis=emphasis,
+              fixed_cfgs=fixed)
+        return c.finish()
+    finally:
+        c.close()
+
+
+def check_C01(tier, seed):
+    return _sys("C01", tier, seed, ["C01", "C03"], ["mixed", "ties", "zerodelay", "fanout", "mixed", "single"], 8, 40, 5, 12)
+
+
+def check_C03(tier, seed):
+    em = lambda r: {"batch": r.choice([1, 1, 2]), "period": r.choice([0, 0, 30]),
+                    "term": r.choice([0, 0, 0, 4, 9]), "stop_at": r.choice([0, 0, 0, 0, r.randrange(200, 3000)])}
+    return _sys("C03", tier, seed, ["C03"], ["mixed", "fanout", "ties", "zerodelay"], 6, 30, 6, 12, em, "small", "medium")
+
+
+def check_C04(tier, seed):
+    em = lambda r: {"batch": r.choice([1, 1, 1, 2]), "period": r.choice([0, 0, 0, 20]), "threads": r.choice([2, 2, 3, 3, 4])}
+    return _sys("C04", tier, seed, ["C04"], ["mixed", "fanout", "zerodelay", "ties"], 6, 30, 6, 14, em, "small", "medium")
+
+
+def check_C05(tier, seed):
+    em = lambda r: {"ckpt": r.choice([0, 1, 2, 3, 5, 7, 11]), "switch": r.choice(["1/8", "1/24", "1/96", "1/300"]),
+                    "threads": r.choice([2, 3, 4])}
+    return _sys("C05", tier, seed, ["C05"], ["mixed", "fanout", "ties", "zerodelay"], 6, 30, 6, 14, em)
+
+
+def check_C06(tier, seed):
+    em = lambda r: {"switch": r.choice(["1/2", "1/8", "1/24", "1/96"]), "threads": r.choice([2, 3, 4, 6])}
+    return _sys("C06", tier, seed, ["C06"], ["fanout", "mixed", "fanout", "zerodelay", "ties"], 6, 30, 6, 14, em)
+
+
+def check_C07(tier, seed):
+    em = lambda r: {"batch": r.choice([1, 2, 64]), "period": r.choice([0, 0, 40])}
+    return _sys("C07", tier, seed, ["C07"], ["nonmono", "time0:medium", "initdone", "mixed", "nonmono", "time0:medium", "sparse"], 8, 36, 5, 12, em)
+
+
+def check_C08(tier, seed):
+    em = lambda r: {"policy": r.choice([0, 1, 1, 2]), "stop_at": r.choice([0, 0, r.randrange(50, 4000)]),
+                    "period": r.choice([0, 0, 0, 100]), "term": r.choice([0, 0, 5])}
+    return _sys("C08", tier, seed, ["C08"], ["mixed", "sparse", "single", "fanout", "initdone", "nonmono"], 8, 36, 5, 12, em)
+
+
+def check_C09(tier, seed):
+    fixed = [{"threads": t, "ckpt": k, "batch": b, "period": p, "sseed": 7 + t * 13 + k, "switch": sw, "policy": 0}
+             for (t, k, b, p, sw) in [(1, 0, 64, 400, "1/4"), (2, 1, 1, 0, "1/2"), (3, 3, 2, 0, "1/24"), (4, 7, 1, 50, "1/8"),
+                                      (6, 2, 4, 0, "1/96"), (2, 0, 1, 0, "1/1")]]
+    return _sys("C09", tier, seed, ["C09", "C01", "C03", "C05"], ["mixed", "fanout", "ties", "zerodelay"], 5, 24, 1, 6,
+                None, fixed=fixed)
+
+
+def check_C13(tier, seed):
+    em = lambda r: {"ckpt": r.choice([1, 2, 3, 4, 6]), "batch": 1, "period": 0, "switch": r.choice(["1/8", "1/24", "1/96"]),
+                    "threads": r.choice([2, 3, 4])}
+    return _sys("C13", tier, seed, ["C13"], ["mixed", "fanout", "zerodelay"], 6, 30, 6, 14, em, "small", "medium")
